@@ -1,6 +1,8 @@
 """C15 — norm getter/setter, orientation, constructor order, update after a norm:
 generators, implementation runner, Gallina encoding, property oracle."""
+import functools
 import math
+import time
 from fractions import Fraction as F
 
 import numpy as np
@@ -121,13 +123,16 @@ def gen_spec(rng, n, allow_bad=False):
                     layout=rng.choice(LAYOUTS))
     if r < 0.72:
         return dict(kind="field", variant=rng.choice(["same", "larger", "larger", "coarser", "finer"]), todo=True)
-    if r < 0.86:
+    forms = dict(cform=rng.choice(CFORMS), ret=rng.choice(RETS))
+    if r < 0.76:
+        return dict(kind="sumsq", c0=S(rng.choice([F(0), F(0), F(1), F(3, 4), F(10)])), **forms)
+    if r < 0.88:
         cs = [F(rng.randint(-8, 8), 4) for _ in n]
         c0 = F(rng.randint(-16, 48), 4)
-        return dict(kind="affine", c0=S(c0), cs=[S(c) for c in cs], shift=True)
+        return dict(kind="affine", c0=S(c0), cs=[S(c) for c in cs], shift=True, **forms)
     ax = rng.randrange(len(n))
     return dict(kind="step", ax=ax, x0=None, lo=S(rng.choice([F(0), F(0), F(1), F(3, 2)])),
-                hi=S(rng.choice([F(0), F(2), F(5), F(1, 2 ** 19)])))
+                hi=S(rng.choice([F(0), F(2), F(5), F(1, 2 ** 19)])), **forms)
 
 
 def fix_field(spec, p1, p2, n, rng):
@@ -585,6 +590,17 @@ def gen_rel(rng, tier):
                 const=(rng.random() < 0.25))
 
 
+def gen_big(rng):
+    """a mesh with more than 100000 cells and a callable norm that reduces over the point's components
+    (oracle only: no Coq literal of that size is written)"""
+    if rng.random() < 0.5:
+        n, p1, p2 = [48, 48, 48], [-6.0, -6.0, -6.0], [6.0, 6.0, 6.0]
+    else:
+        n, p1, p2 = [400, 300], [-25.0, 0.0], [25.0, 37.5]
+    return dict(kind="big", n=n, p1=p1, p2=p2, nvdim=rng.choice([1, 2, 3]),
+                fn=rng.choice(["norm_lt", "all_lt", "dot", "maxabs"]), vec=[S(x) for x in pyth(rng, 3)])
+
+
 def gen_intdtype(rng):
     k = rng.choice([2, 3])
     return dict(kind="intdtype", nvdim=k, vals=[S(x) for x in pyth(rng, k)])
@@ -626,6 +642,8 @@ def generate(rng, tier):
         cases.append(gen_wide(rng, tier))
     for _ in range(70 if quick else 900):
         cases.append(gen_alias(rng, tier))
+    for _ in range(2 if quick else 6):
+        cases.append(gen_big(rng))
     for _ in range(3):
         cases.append(gen_intdtype(rng))
     for _ in range(3):
@@ -679,21 +697,8 @@ def py_spec(spec, n):
         if form == "n1":
             return relayout(a.reshape(*n, 1), spec.get("layout"))
         return a.reshape(*n).tolist()
-    if kind == "affine":
-        c0 = fl(spec["c0"])
-        cs = [fl(x) for x in spec["cs"]]
-
-        def aff(p):
-            p = np.atleast_1d(p)
-            return c0 + sum(c * float(x) for c, x in zip(cs, p))
-        return aff
-    if kind == "step":
-        ax, x0, lo, hi = spec["ax"], fl(spec["x0"]), fl(spec["lo"]), fl(spec["hi"])
-
-        def step(p):
-            p = np.atleast_1d(p)
-            return lo if float(p[ax]) < x0 else hi
-        return step
+    if kind in ("affine", "step", "sumsq"):
+        return make_callable(spec)
     if kind == "field":
         ns = spec["ns"]
         kw = {}
@@ -710,8 +715,83 @@ def py_spec(spec, n):
     raise ValueError(kind)
 
 
+def _aff(p, c0, cs):
+    p = np.atleast_1d(p)
+    return c0 + sum(c * float(x) for c, x in zip(cs, p))
+
+
+def _step(p, ax, x0, lo, hi):
+    p = np.atleast_1d(p)
+    return lo if float(p[ax]) < x0 else hi
+
+
+def _sumsq(p, c0):
+    p = np.atleast_1d(np.asarray(p, dtype=float))
+    return c0 + float(p @ p)          # a reduction over the point's components
+
+
+class _CallableNorm:
+    """a callable class instance as norm specification"""
+
+    def __init__(self, fn):
+        self.fn = fn
+
+    def __call__(self, point):
+        return self.fn(point)
+
+
+CFORMS = ["def", "def", "lambda", "partial", "instance", "ufunc"]
+RETS = ["float", "float", "npfloat", "arr0", "arr1", "list1"]
+
+
+def make_callable(spec):
+    """the position function of an affine / step / sum-of-squares specification, in the form
+    (def, lambda, functools.partial, callable instance, numpy-ufunc expression) and with the return
+    type (Python float, numpy scalar, 0-d array, 1-element array / list) the case asks for"""
+    kind = spec["kind"]
+    if kind == "affine":
+        args = dict(c0=fl(spec["c0"]), cs=[fl(x) for x in spec["cs"]])
+        base = _aff
+    elif kind == "step":
+        args = dict(ax=spec["ax"], x0=fl(spec["x0"]), lo=fl(spec["lo"]), hi=fl(spec["hi"]))
+        base = _step
+    else:
+        args = dict(c0=fl(spec["c0"]))
+        base = _sumsq
+    ret = {"float": float, "npfloat": np.float64, "arr0": lambda x: np.array(float(x)),
+           "arr1": lambda x: np.array([float(x)]), "list1": lambda x: [float(x)]}[spec.get("ret", "float")]
+    cform = spec.get("cform", "def")
+    if cform == "ufunc":
+        # numpy expressions on the point as an array
+        if kind == "affine":
+            def core(p):
+                return np.add(args["c0"], np.dot(np.asarray(args["cs"], dtype=float), np.atleast_1d(np.asarray(p, dtype=float))))
+        elif kind == "step":
+            def core(p):
+                return np.where(np.less(np.atleast_1d(np.asarray(p, dtype=float))[args["ax"]], args["x0"]), args["lo"], args["hi"])
+        else:
+            def core(p):
+                return np.add(args["c0"], np.sum(np.square(np.atleast_1d(np.asarray(p, dtype=float)))))
+    else:
+        core = functools.partial(base, **args)
+    if cform == "partial" and spec.get("ret", "float") == "float":
+        return core if cform != "ufunc" else functools.partial(core)
+    if cform == "lambda":
+        return lambda point: ret(core(point))
+    if cform == "instance":
+        return _CallableNorm(lambda point: ret(core(point)))
+    if cform == "partial":
+        return functools.partial(lambda point, wrap: wrap(core(point)), wrap=ret)
+
+    def norm_function(point):
+        return ret(core(point))
+    return norm_function
+
+
 def coq_spec(spec):
     kind = spec["kind"]
+    if kind == "sumsq":
+        return f"(SSumSq {g.q(spec['c0'])})"
     if kind == "field":
         return f"(SField {g.ql(spec['p1'])} {g.ql(spec['p2'])} {g.zl(spec['ns'])} {g.ql(spec['vals'])})"
     if kind == "const":
@@ -752,6 +832,8 @@ def spec_values(spec, mesh):
         p = [lo + (i + F(1, 2)) * c for lo, i, c in zip(pmin, idx, cell)]
         if kind == "affine":
             out.append(F(spec["c0"]) + sum(F(c) * x for c, x in zip(spec["cs"], p)))
+        elif kind == "sumsq":
+            out.append(F(spec["c0"]) + sum(x * x for x in p))
         else:
             out.append(F(spec["lo"]) if p[spec["ax"]] < F(spec["x0"]) else F(spec["hi"]))
     return out
@@ -1111,6 +1193,68 @@ def run_rel(c):
     return rec
 
 
+def run_big(c):
+    rec = dict(kind="big", case=c, oracle=[], tags=[], coq=None)
+    n, k = c["n"], c["nvdim"]
+    nd = len(n)
+    mesh = df.Mesh(p1=c["p1"], p2=c["p2"], n=n)
+    v = [float(F(x)) for x in c["vec"]][:k]
+    if not any(v):
+        v[0] = 2.0
+    f = df.Field(mesh, nvdim=k, value=v if k > 1 else v[0])
+    # exact cell centres (dyadic mesh): lo + (i + 1/2) * cell
+    lo = np.minimum(c["p1"], c["p2"])
+    cw = (np.maximum(c["p1"], c["p2"]) - lo) / np.array(n)
+    axes = [lo[a] + (np.arange(n[a]) + 0.5) * cw[a] for a in range(nd)]
+    pts = np.stack(np.meshgrid(*axes, indexing="ij"), axis=-1)
+    r = np.sqrt(np.sum(pts * pts, axis=-1))
+    fn = c["fn"]
+    if fn == "norm_lt":
+        R = 0.61803 * float(r.max())
+        while np.min(np.abs(r - R)) < 1e-9 * R:
+            R *= 1.0000001
+        spec = lambda p: 3.0 if np.linalg.norm(p) < R else 1.5      # noqa: E731
+        want = np.where(r < R, 3.0, 1.5)
+    elif fn == "all_lt":
+        a = float(axes[0][n[0] // 2] + cw[0] / 4)
+
+        def spec(p):
+            return 2.0 if np.all(np.asarray(p) < a) else 0.5
+        want = np.where(np.all(pts < a, axis=-1), 2.0, 0.5)
+    elif fn == "dot":
+        def spec(p):
+            p = np.asarray(p, dtype=float)
+            return 1.0 + np.sum(np.square(p))
+        want = 1.0 + np.sum(pts * pts, axis=-1)
+    else:
+        def spec(p):
+            return 0.25 + np.max(np.abs(p))          # Chebyshev length of the point
+        want = 0.25 + np.max(np.abs(pts), axis=-1)
+    before = f.array.copy()
+    t0 = time.time()
+    st, _ = attempt(lambda: setattr(f, "norm", spec))
+    obs = dict(status=st, seconds=round(time.time() - t0, 2), cells=int(np.prod(n)),
+               distinct_targets=int(len(np.unique(want))))
+    if st != "ok":
+        rec["oracle"].append("required-call-raised")
+    else:
+        got = f.array
+        if not np.all(np.isfinite(got)):
+            rec["oracle"].append("set-norm-result-not-finite")
+        else:
+            length = np.sqrt(np.sum(got * got, axis=-1))
+            if np.any(np.abs(length - want) > 1e-12 * want):
+                rec["oracle"].append("set-norm-length")
+                j = np.unravel_index(int(np.argmax(np.abs(length - want))), want.shape)
+                obs["worst_cell"] = [int(x) for x in j]
+                obs["worst_got_want"] = [float(length[j]), float(want[j])]
+            n0 = math.sqrt(sum(x * x for x in v))
+            if np.any(np.abs(got * n0 - before * want[..., np.newaxis]) > 1e-12 * n0 * want[..., np.newaxis]):
+                rec["oracle"].append("set-norm-direction")
+    rec.update(obs=obs, key=f"big/{len(n)}d/{k}/{fn}/{st}", size=int(np.prod(n)))
+    return rec
+
+
 def run_intdtype(c):
     rec = dict(kind="intdtype", case=c, oracle=[], tags=[], coq=None)
     k = c["nvdim"]
@@ -1164,7 +1308,7 @@ def run_rejected(c):
 
 
 def run_case(c):
-    fn = {"hist": run_hist, "rel": run_rel, "intdtype": run_intdtype}.get(c["kind"], run_rejected)
+    fn = {"hist": run_hist, "rel": run_rel, "intdtype": run_intdtype, "big": run_big}.get(c["kind"], run_rejected)
     try:
         return fn(c)
     except Exception as e:  # noqa: BLE001
